@@ -1,6 +1,6 @@
 #!/bin/bash
 # usage: confirm_seed.sh <prop> <n>  -- confirms mutant n of /tmp/mut/<prop>/_out in that scratch worktree
-id=$1; n=$2; wt=/tmp/mut/$id; out=/tmp/mut/confirm_${id}_$n.txt
+id=$1; n=$2; base=${3:-/tmp/mut}; wt=$base/$id; out=$base/confirm_${id}_$n.txt
 cd $wt || exit 9
 git checkout -q -- . 
 {
